@@ -1,3 +1,4 @@
+import Cactus.Lemmas.Contract
 import Cactus.Lemmas.Final
 import Cactus.Lemmas.Orphan
 import Cactus.Props.C13
@@ -98,5 +99,34 @@ theorem C01_run (ops : List (Op × List Nat)) (hP : ReachableP (run ops)) (he : 
 /-- the contract is satisfiable and the theorem is not vacuous: the initial state is
 contract-respecting-reachable -/
 example : ReachableP ({} : State) := .init
+
+
+/-! ## The same, with a *syntactic* hypothesis on the history
+
+`Op.respects`: the history (including every destructor script it installs) never calls the two
+primitives that can break the contract on their own — a bare `adopt` (recording an adoption without
+storing the handle) and a bare `take` (removing a stored handle without `unadopt`) — and uses the
+composites `link` (= adopt; store) and `unlink` (= take; unadopt) instead, together with every
+other operation of the alphabet: `new clone drop unadopt store downgrade upgrade cloneWeak dropWeak
+storeWeak tryUnwrap dropValue makeMut getMut intoRaw fromRaw incStrong decStrong ptrEq counts
+setPanic shuffle …`.  Redundant or unmatched `unadopt`s, partially recorded edges (`store` without
+`adopt`), parallel adoptions, self-adoption through a clone or through the same handle, panicking
+destructors and every layout are all inside this alphabet.  `step_P` shows that the machine's own
+steps never break the contract, so nothing needs to be assumed about intermediate states. -/
+
+/-- **C01 for every contract-respecting history**, at every point of its execution. -/
+theorem C01_contract_respecting_histories {s : State} (h : ReachableC s) (he : s.err = none)
+    {o : Nat} (hr : s.Reach o) : s.isLive o = true := contract_respecting_history_safe h he hr
+
+theorem C01_run_contract_respecting (ops : List (Op × List Nat)) (hops : ∀ oh ∈ ops, oh.1.respects)
+    (he : (run ops).err = none) {o : Nat} (hr : (run ops).Reach o) : (run ops).isLive o = true :=
+  run_contract_safe ops hops he hr
+
+/-- the library's own steps never break the adoption contract -/
+theorem C01_internal_steps_keep_contract (s : State) (hI : s.Inv) (hC : s.ScriptsC) (hP : s.P) :
+    (step s).P := step_P s hI hC hP
+
+/-- non-vacuity: the ring-with-tail history is contract-respecting -/
+example : ∀ oh ∈ ringTailHistory, oh.1.respects := by decide
 
 end Cactus
